@@ -112,6 +112,7 @@ type vfDisk struct {
 	readers                map[int]*vfDReader
 	nextRid                int
 	opIdx                  int
+	stalls                 int  // reads that stalled (each costs its deadline): the run stops after a few
 	manySegs, pinnedClosed bool // coverage: the case had >= 3 segments / a reader on a closed segment
 	caseNo                 int
 	trace                  []string // op lines of the current case (for replays)
@@ -167,8 +168,9 @@ func (d *vfDisk) guard(what string, f func()) bool {
 	select {
 	case <-done:
 		return true
-	case <-time.After(8 * time.Second):
+	case <-time.After(5 * time.Second):
 		d.dead = true
+		d.stalls++
 		return false
 	}
 }
@@ -607,10 +609,8 @@ func (d *vfDisk) opReadX(rid int, n int, gcInWindow bool) {
 			got, err = vr.rd.rdb.read(buf)
 		}
 	}()
-	limit := 8 * time.Second
-	if inval {
-		limit = 1500 * time.Millisecond
-	}
+	// a read the oracle says can make progress needs at most a few 10 ms polls
+	limit := 1500 * time.Millisecond
 	select {
 	case <-done:
 	case <-time.After(limit):
@@ -627,8 +627,10 @@ func (d *vfDisk) opReadX(rid int, n int, gcInWindow bool) {
 			d.s.Violate("invalidated-reader-hangs", fmt.Sprintf("reader %d (start %d, pos %d) was invalidated (reset/writer replacement) but neither ends nor fails: read blocks", rid, vr.start, vr.pos),
 				d.replay(map[string]interface{}{"reader": rid}))
 		} else {
-			d.s.Violate("reader-stuck", fmt.Sprintf("reader %d (start %d, pos %d) did not deliver although bytes up to %d are held", rid, vr.start, vr.pos, d.right()),
+			d.s.Violate("reader-stalls-behind-writer", fmt.Sprintf("reader %d (opened at %d, now at %d) neither delivers nor fails although bytes up to %d are held: it stalls behind the writer", rid, vr.start, vr.pos, d.right()),
 				d.replay(map[string]interface{}{"reader": rid}))
+			d.stalls++
+			d.dead = true // the case ends here: further reads of this history would stall the same way
 		}
 		return
 	}
@@ -972,11 +974,31 @@ func (d *vfDisk) runScript(script string) {
 	d.finishCase()
 }
 
+// vfWatchdog ends the whole test process when it runs longer than limit: the
+// summary (with the op that was running) is written first, so that no behaviour
+// of the code under test can make the check wait for go test's own timeout.
+func vfWatchdog(s *vfutil.Session, limit time.Duration, cur func() string) *time.Timer {
+	return time.AfterFunc(limit, func() {
+		s.Violate("harness-watchdog", fmt.Sprintf("the harness did not finish within %v; last op: %s", limit, cur()),
+			map[string]interface{}{"last_ops": cur()})
+		s.Close()
+		os.Exit(3)
+	})
+}
+
 func TestVerifC05(t *testing.T) {
 	s := vfutil.NewSession("C05")
 	defer s.Close()
 	vfRoot0 = t.TempDir()
 	d := &vfDisk{s: s, r: vfutil.NewRand(vfutil.Seed())}
+	wd := vfWatchdog(s, time.Duration(vfutil.Scale(150, 1500))*time.Second, func() string {
+		tr := d.trace
+		if len(tr) > 40 {
+			tr = tr[len(tr)-40:]
+		}
+		return strings.Join(tr, " ; ")
+	})
+	defer wd.Stop()
 
 	for _, l := range vfutil.Corpus("C05") {
 		if strings.HasPrefix(l, "dnew") {
@@ -999,9 +1021,12 @@ func TestVerifC05(t *testing.T) {
 	if v, err := strconv.Atoi(os.Getenv("VERIF_CASES")); err == nil {
 		cases = v
 	}
-	for c := 0; c < cases; c++ {
+	for c := 0; c < cases && d.stalls < 4; c++ {
 		d.runCase(vfutil.Scale(150, 250))
 		s.Count("cases")
+	}
+	if d.stalls >= 4 {
+		s.Count("run_cut_short_after_stalls")
 	}
 	_ = filepath.Join
 }
